@@ -472,14 +472,24 @@ func (c *c18) buildList(sh shape) (upc.UEPolicySectionManagementListContent, []r
 			ins.SetUpsc(in.upsc)
 			ins.SetLen(in.preLen)
 			ri := refIns{upsc: in.upsc}
+			// half of the instructions are built the way application code does it: ONE part variable,
+			// refilled and appended again (AppendUEPolicyPart copies the struct); the other half uses a
+			// fresh variable per part
+			var reused upc.UEPolicyPart
+			reuse := (int(in.upsc)+len(in.parts))%2 == 0
 			for _, p := range in.parts {
-				var part upc.UEPolicyPart
+				var fresh upc.UEPolicyPart
+				part := &fresh
+				if reuse {
+					part = &reused
+				}
+				_ = part
 				part.UEPolicyPartType.SetPartType(p.typ)
 				part.SetPartContent(hk.ExactNil(p.content))
 				if in.partPreLen != 0 {
 					part.SetLen(in.partPreLen)
 				}
-				ins.UEPolicySectionContents.AppendUEPolicyPart(&part)
+				ins.UEPolicySectionContents.AppendUEPolicyPart(part)
 				ri.parts = append(ri.parts, p)
 			}
 			sub.UEPolicySectionManagementSubListContents.AppendInstruction(ins)
